@@ -18,7 +18,7 @@ import (
 	"verif/simnet"
 )
 
-var caps = []string{"", "timestamps", "duplicate-synack", "slow-synack", "no-sack-permitted", "plain-acks", "empty-sack-option", "half-sack-block", "closed", "no-handshake", "syn-dropped"}
+var caps = []string{"", "timestamps", "duplicate-synack", "slow-synack", "isn-near-wrap", "no-sack-permitted", "plain-acks", "empty-sack-option", "half-sack-block", "closed", "no-handshake", "syn-dropped"}
 
 func unavailable(c string) bool {
 	return c == "no-sack-permitted" || c == "plain-acks" || c == "empty-sack-option" || c == "half-sack-block" || c == "closed" || c == "syn-dropped"
